@@ -483,14 +483,78 @@ func VerifC07Auto() {
 					if !verifHas(got, subj) {
 						j = true
 					}
+					// ... or of a state this auto state pulls in through its own Add relations (its relations)
+					own := S{a}
+					for grown := true; grown; {
+						grown = false
+						for _, p := range own {
+							for _, q := range s.schema[p].Add {
+								if !verifHas(own, q) {
+									own = append(own, q)
+									grown = true
+								}
+							}
+						}
+					}
+					if subj != a && verifHas(own, subj) {
+						j = true
+					}
+				}
+				// relations inside its own Add closure defeat it: a pulled-in state Removes what the closure Requires
+				ownc := S{a}
+				for grown := true; grown; {
+					grown = false
+					for _, p := range ownc {
+						for _, q := range s.schema[p].Add {
+							if !verifHas(ownc, q) {
+								ownc = append(ownc, q)
+								grown = true
+							}
+						}
+					}
+				}
+				for _, p := range ownc {
+					for _, q := range ownc {
+						for _, r := range s.schema[q].Require {
+							if verifHas(s.schema[p].Remove, r) {
+								j = true
+							}
+						}
+					}
 				}
 				if !j {
 					just = false
+					if !vSymbolic() {
+						vDump("unjustified auto state "+a, s)
+					}
 				}
 			}
 			vAssert("rejected-auto-state-is-justified", just)
 		}
 	} else {
 		vAssert("no-auto-mutation-otherwise", len(ends) == 1)
+	}
+}
+
+// vDump prints a scenario natively (replay diagnostics only).
+func vDump(what string, s *verifScn) {
+	println("VERIF-DUMP", what)
+	for _, n := range s.names {
+		st := s.schema[n]
+		println("VERIF-DUMP  state", n, "auto", st.Auto, "multi", st.Multi, "require", verifJoin(st.Require), "add", verifJoin(st.Add), "remove", verifJoin(st.Remove), "after", verifJoin(st.After))
+	}
+	println("VERIF-DUMP  pre", verifJoin(s.pre), "post", verifJoin(s.m.ActiveStates(nil)))
+	for k, v := range s.veto {
+		if v {
+			println("VERIF-DUMP  veto", k)
+		}
+	}
+	for _, c := range s.calls {
+		println("VERIF-DUMP  call", c.name, "active", verifJoin(c.active))
+	}
+	for _, e := range s.tr.log {
+		if e.kind == "end" {
+			println("VERIF-DUMP  end called", verifJoin(IndexToStates(s.m.stateNames, e.mut.Called)), "auto", e.mut.IsAuto, "acc", e.acc)
+		}
 	}
 }
